@@ -49,7 +49,15 @@ var c04TagPrograms = []struct{ src, want string }{
 	{"'a'.tag('b')", "1:[system.String ab]"}, {"'a'.tag('b'.tag('c'))", "1:[system.String abc]"}, {"'a'.tag('b'.tag('c'.tag('d')))", "1:[system.String abcd]"},
 	{"'a'.tag('b').tag('c')", "1:[system.String abc]"}, {"Patient.name.given.first().tag(Patient.name.family.first().tag('!'))", ""}, {"Patient.name.given.select($this.tag($this.tag('-')))", ""},
 	{"Patient.name.family.first().tag('x') & Patient.name.given.first().tag('y')", ""},
+	// one caller-owned collection handed to EVERY evaluation of the run (and of the concurrent child): what one evaluation
+	// does with it may not show in another
+	{"%shared[1]", "1:[system.String Ann]"}, {"%shared.count()", "1:[system.Integer 4]"}, {"%shared.distinct().count()", "1:[system.Integer 2]"},
+	{"%shared.isDistinct()", "1:[system.Boolean false]"}, {"%shared.skip(1).distinct().count()", "1:[system.Integer 2]"}, {"%shared.tail().isDistinct()", "1:[system.Boolean false]"},
+	{"%shared[2]", "1:[system.String Bea]"}, {"%shared.where($this = 'Ann').count()", "1:[system.Integer 3]"}, {"%shared.last()", "1:[system.String Ann]"},
+	{"%shared.take(2).distinct().count()", "1:[system.Integer 1]"}, {"%shared.count()", "1:[system.Integer 4]"}, {"%shared[1]", "1:[system.String Ann]"},
 }
+
+var c04Shared = append(make(system.Collection, 0, 8), system.String("Ann"), system.String("Ann"), system.String("Bea"), system.String("Ann"))
 
 func c04Copts() []fhirpath.CompileOption {
 	return []fhirpath.CompileOption{compopts.WithExperimentalFuncs(), compopts.AddFunction("tag", func(in system.Collection, s system.String) (system.Collection, error) {
@@ -69,7 +77,7 @@ func c04Evaluate(e *fhirpath.Expression, res proto.Message, fixed time.Time) str
 	var out system.Collection
 	var err error
 	if pn, msg := protect(func() {
-		out, err = verifhook.Evaluate(e, []proto.Message{res}, evalopts.OverrideTime(fixed), evalopts.EnvVariable("coll", coll), evalopts.EnvVariable("empty", system.Collection{}),
+		out, err = verifhook.Evaluate(e, []proto.Message{res}, evalopts.OverrideTime(fixed), evalopts.EnvVariable("coll", coll), evalopts.EnvVariable("shared", c04Shared), evalopts.EnvVariable("empty", system.Collection{}),
 			evalopts.EnvVariable("res", res), evalopts.EnvVariable("str", system.String("s")), evalopts.EnvVariable("num", system.Integer(1)))
 	}); pn {
 		return "panic:" + msg
